@@ -5,5 +5,5 @@ d=$1; shift
 wt=/tmp/seed/try-$$
 git -C /repo worktree add -q --detach $wt HEAD || exit 9
 (cd $wt && git apply "$d/patch.diff") || { echo "patch does not apply"; git -C /repo worktree remove --force $wt; exit 3; }
-for p in "$@"; do (cd /verif && VERIF_REPO=$wt VERIF_EVIDENCE_DIR=/var/tmp/mutant-evidence bin/check $p quick 2>&1 | grep -E "VIOLATION|KNOWN|quick seed|failure" | cut -c1-220); done
+for p in "$@"; do (cd ${VERIF_HOME:-/verif} && VERIF_REPO=$wt VERIF_EVIDENCE_DIR=/var/tmp/mutant-evidence bin/check $p quick 2>&1 | grep -E "VIOLATION|KNOWN|quick seed|failure" | cut -c1-220); done
 git -C /repo worktree remove --force $wt
